@@ -33,7 +33,7 @@ func main() {
 		os.Exit(govc.RunReplayFile(os.Args[2]))
 	case "fold":
 		// govc fold <package path> <spec function>: prove the fold (extensionality) lemma of a `specfold`
-		v, err := govc.Load("/repo", "./...")
+		v, err := govc.Load(repoDir(), "./...")
 		if err != nil {
 			fmt.Fprintln(os.Stderr, err)
 			os.Exit(2)
@@ -56,7 +56,7 @@ func main() {
 			}
 		}
 	case "eff":
-		v, err := govc.Load("/repo", "./...")
+		v, err := govc.Load(repoDir(), "./...")
 		if err != nil {
 			fmt.Fprintln(os.Stderr, err)
 			os.Exit(2)
@@ -71,7 +71,7 @@ func main() {
 }
 
 func cmdList(args []string) {
-	v, err := govc.Load("/repo", "./...")
+	v, err := govc.Load(repoDir(), "./...")
 	if err != nil {
 		fmt.Fprintln(os.Stderr, err)
 		os.Exit(2)
@@ -97,7 +97,7 @@ func cmdFunc(args []string) {
 	timeout := fs.Duration("t", 10*time.Second, "per-query timeout")
 	dump := fs.String("dump", "", "dump SMT of obligation matching substring")
 	fs.Parse(args)
-	v, err := govc.Load("/repo", "./...")
+	v, err := govc.Load(repoDir(), "./...")
 	if err != nil {
 		fmt.Fprintln(os.Stderr, err)
 		os.Exit(2)
@@ -126,7 +126,7 @@ func cmdFunc(args []string) {
 }
 
 func cmdSweep(args []string) {
-	v, err := govc.Load("/repo", "./...")
+	v, err := govc.Load(repoDir(), "./...")
 	if err != nil {
 		fmt.Fprintln(os.Stderr, err)
 		os.Exit(2)
@@ -175,4 +175,12 @@ func cmdSweep(args []string) {
 	for _, r := range res {
 		fmt.Println(r)
 	}
+}
+
+// repoDir: /repo, or $GOVC_REPO (a scratch copy) for the debugging sub-commands
+func repoDir() string {
+	if d := os.Getenv("GOVC_REPO"); d != "" {
+		return d
+	}
+	return "/repo"
 }
